@@ -97,7 +97,7 @@ func (b *Bytes) Set(src Blob, destStart int64) (n int, err error) {
 	if destStart < 0 {
 		return 0, errors.New("negative offset")
 	}
-	if destStart >= int64(b.Len()) && destStart == 0 && src.Len() > 0 {
+	if destStart > int64(b.Len()) || (destStart >= int64(b.Len()) && destStart == 0 && src.Len() > 0) {
 		return 0, fmt.Errorf("Offset out of bounds: %d", destStart)
 	}
 	b.mu.Lock()
